@@ -1134,6 +1134,90 @@ class Generated(Suite):
         return check_case(case)
 
 
+def _expand_big(case):
+    """The response a compact `big` case stands for: the same response with one part grown to a size / count beyond the
+    moderate range (text or data of n characters / bytes, or a stream of n chunks, or chunks of up to one 8 KiB block)."""
+    case = dict(case)
+    which, n = case['big']
+    if which == 'text' and case.get('text') is not None:
+        base = case['text'] or 'x\u00e9-'
+        case['text'] = (base * (n // len(base) + 1))[:n]
+    elif which == 'data' and case.get('data') is not None:
+        base = case['data'] or b'\x00\xffz'
+        case['data'] = (base * (n // len(base) + 1))[:n]
+    elif which == 'media' and case.get('media') is not None:
+        case['media'] = {'v': case['media']['v'], 'pad': ['item-%d' % i for i in range(n // 10)]}
+    elif which in ('items', 'bytes') and case.get('stream') and case['stream']['kind'] != 'sse':
+        spec = dict(case['stream'])
+        old = stream_chunks(spec)
+        old_total = sum(len(c) for c in spec['chunks'])
+        base = [c for c in spec['chunks'] if c] or [b'ab']
+        if which == 'items':
+            spec['chunks'] = [base[i % len(base)] + bytes([48 + i % 10]) for i in range(n)]
+        else:
+            spec['chunks'] = [(c * 8192)[:(8192 if i % 2 == 0 else 8191 - i)] for i, c in enumerate(base)] * (n // (8192 * len(base)) + 1)
+        new_total = sum(len(c) for c in spec['chunks'])
+        if spec.get('length') is not None and spec['length'] != 0:
+            spec['length'] = new_total + (spec['length'] - old_total)
+        if spec.get('raise_at') is not None and spec['raise_at'] >= len(old) and old:
+            spec['raise_at'] = len(stream_chunks(spec)) - (1 if spec['raise_at'] % 2 else 0)
+        case['stream'] = spec
+    if case.get('fail_at') is not None and case['fail_at'] >= 2 and which in ('items', 'bytes'):
+        case['fail_at'] = case['fail_at'] + n % 37
+    return case
+
+
+class Big(Suite):
+    """The generated responses again with ONE part beyond the moderate range: text / data of 4 KiB-300 KiB (around the
+    8 KiB stream block, the 64 KiB mark and powers of two +-1), media documents with thousands of items, streams of
+    6-400 chunks, and streams whose chunks are full 8 KiB blocks adding up to more than 64 KiB; same oracle as `generated`
+    (framing, Content-Length, exact body, close-once, faults late in a long stream)."""
+
+    name = 'big'
+    budget = {'quick': 1500, 'thorough': 20000}
+
+    def strategy(self, tier):
+        sizes = st.one_of(st.sampled_from([4095, 4096, 4097, 8191, 8192, 8193, 16384, 32768, 65535, 65536]),
+                          st.sampled_from([65537, 70001, 131071, 131072, 131073, 300001, 1048577]))
+        big = st.one_of(st.tuples(st.sampled_from(['text', 'data', 'media', 'bytes']), sizes),
+                        st.tuples(st.just('items'), st.one_of(st.integers(6, 40), st.sampled_from([63, 64, 65, 127, 128, 129, 255, 256, 257, 400]))))
+        def attach(case, big, keep_method, keep_status, code):
+            case = dict(case, big=list(big))
+            # most of the budget goes to responses that do carry the body (HEAD and bodiless statuses stay at 1/8 resp. 1/4)
+            if not keep_method and case['method'] == 'HEAD':
+                case['method'] = 'GET'
+            if not keep_status:
+                case['status'] = [case['status'][0], code if case['status'][0] != 'str' else '%d Big' % code]
+            return case
+        return st.builds(attach, _response_case(), big, st.integers(0, 7).map(lambda v: v == 0), st.integers(0, 3).map(lambda v: v == 0),
+                         st.sampled_from([200, 200, 201, 404, 500]))
+
+    def run(self, case):
+        hint, n = case['big']
+        parts = [w for w in ('text', 'data', 'media') if case.get(w) is not None]
+        if case.get('stream') and case['stream']['kind'] != 'sse':
+            parts += ['items', 'bytes']
+        if not parts:
+            return check_case(case)
+        # every part that is present is grown in turn (the drawn kind first), at the drawn size
+        order = ([hint] if hint in parts else []) + [w for w in parts if w != hint]
+        labels = []
+        for which in order:
+            size = n if (which == 'items') == (hint == 'items') else (min(n, 400) if which == 'items' else 65536 + n)
+            compact = dict(case, big=[which, size])
+            try:
+                info = check_case(_expand_big(compact))
+            except Violation as v:
+                head = v.detail.split('\n  case=')[0]
+                raise Violation(v.kind, '%s\n  compact case=%r' % (head[:1500], compact))
+            if which == order[0]:
+                labels = list(info.labels)
+            labels.append('big:%s' % which)
+            labels.append('items:%s' % ('<64' if size < 64 else '>=64') if which == 'items'
+                          else 'n:%s' % ('<8K' if size < 8192 else '<64K' if size < 65536 else '>=64K'))
+        return Info(True, labels)
+
+
 class _Reset(Exception):
     pass
 
@@ -1235,7 +1319,7 @@ class AfterError(Suite):
         return Info(any(case['pre']), [case['stack'], 'final:' + final] + (['rendered_before_raise'] if case['render'] else []))
 
 
-SUITES = [Matrix(), StatusCodes(), FaultEnum(), Generated(), AfterError()]
+SUITES = [Matrix(), StatusCodes(), FaultEnum(), Generated(), Big(), AfterError()]
 
 
 # ----------------------------------------------------------------- known findings (narrow predicates)
